@@ -1,3 +1,152 @@
 package main
 
-func mirrorMain() {}
+// Mirror mode: one scenario per input line.  A fresh REAL mirror (memstores, genesis validator
+// set with the given powers, real ed25519 keys) receives ONE vote message carrying the whole
+// vote multiset for (height 1, round 0 or 1); afterwards the voting view is read back.
+//
+// input : id|p0,p1,..|pv or pc|round|hex:mask;hex:mask
+// output: id|result|H|R|avail|totPV|totPC|pvBlock|pcBlock|mostPV|mostPC|pvProofs|pcProofs
+//         (proofs of the voting view as hex:mask;... , masks recomputed from SignatureBitSet)
+
+import (
+	"bufio"
+	"context"
+	"fmt"
+	"io"
+	"log/slog"
+	"os"
+	"sort"
+	"strconv"
+	"strings"
+	"time"
+
+	"github.com/bits-and-blooms/bitset"
+	"github.com/gordian-engine/gordian/gassert/gasserttest"
+	"github.com/gordian-engine/gordian/gcrypto"
+	"github.com/gordian-engine/gordian/gwatchdog"
+	"github.com/gordian-engine/gordian/tm/tmconsensus"
+	"github.com/gordian-engine/gordian/tm/tmconsensus/tmconsensustest"
+	"github.com/gordian-engine/gordian/tm/tmengine"
+	"github.com/gordian-engine/gordian/tm/tmstore/tmmemstore"
+)
+
+func proofMasks(m map[string]gcrypto.CommonMessageSignatureProof) string {
+	var ks []string
+	for k := range m {
+		ks = append(ks, k)
+	}
+	sort.Strings(ks)
+	var out []string
+	var bs bitset.BitSet
+	for _, k := range ks {
+		m[k].SignatureBitSet(&bs)
+		var mask uint64
+		for i, ok := bs.NextSet(0); ok && i < 64; i, ok = bs.NextSet(i + 1) {
+			mask |= 1 << i
+		}
+		out = append(out, fmt.Sprintf("%s:%d", hexOrDash(k), mask))
+	}
+	if len(out) == 0 {
+		return "."
+	}
+	return strings.Join(out, ";")
+}
+
+func runScenario(pool tmconsensustest.PrivVals, f []string) string {
+	ctx, cancel := context.WithCancel(context.Background())
+	defer cancel()
+
+	var powers []uint64
+	for _, p := range strings.Split(f[1], ",") {
+		v, err := strconv.ParseUint(p, 10, 64)
+		if err != nil {
+			panic(err)
+		}
+		powers = append(powers, v)
+	}
+	n := len(powers)
+	fx := tmconsensustest.NewEd25519Fixture(0)
+	fx.PrivVals = make(tmconsensustest.PrivVals, n)
+	copy(fx.PrivVals, pool[:n])
+	for i := range fx.PrivVals {
+		fx.PrivVals[i].Val.Power = powers[i]
+	}
+	round64, _ := strconv.ParseUint(f[3], 10, 32)
+	round := uint32(round64)
+
+	log := slog.New(slog.NewTextHandler(io.Discard, nil))
+	wd, _ := gwatchdog.NewNopWatchdog(ctx, log)
+	cfg := tmengine.VerifC06MirrorConfig{
+		Store:                tmmemstore.NewMirrorStore(),
+		CommittedHeaderStore: tmmemstore.NewCommittedHeaderStore(),
+		RoundStore:           tmmemstore.NewRoundStore(),
+		ValidatorStore:       tmmemstore.NewValidatorStore(fx.HashScheme),
+
+		InitialHeight:       1,
+		InitialValidatorSet: fx.ValSet(),
+
+		HashScheme:                        fx.HashScheme,
+		SignatureScheme:                   fx.SignatureScheme,
+		CommonMessageSignatureProofScheme: fx.CommonMessageSignatureProofScheme,
+
+		Watchdog:  wd,
+		AssertEnv: gasserttest.DefaultEnv(),
+	}
+	m, err := tmengine.VerifC06NewMirror(ctx, log, cfg)
+	if err != nil {
+		return fmt.Sprintf("%s|ERR %v", f[0], err)
+	}
+	defer func() {
+		cancel()
+		m.Wait()
+		wd.Wait()
+	}()
+
+	keyHash, _ := fx.ValidatorHashes()
+	vm := voteMap(parseEntries(f[4]), n)
+	var res tmconsensus.HandleVoteProofsResult
+	hctx, hcancel := context.WithTimeout(ctx, 5*time.Second)
+	defer hcancel()
+	if f[2] == "pv" {
+		res = m.HandlePrevoteProofs(hctx, tmconsensus.PrevoteSparseProof{
+			Height: 1, Round: round, PubKeyHash: keyHash,
+			Proofs: fx.SparsePrevoteProofMap(ctx, 1, round, vm),
+		})
+	} else {
+		res = m.HandlePrecommitProofs(hctx, tmconsensus.PrecommitSparseProof{
+			Height: 1, Round: round, PubKeyHash: keyHash,
+			Proofs: fx.SparsePrecommitProofMap(ctx, 1, round, vm),
+		})
+	}
+	var vrv tmconsensus.VersionedRoundView
+	if err := m.VotingView(hctx, &vrv); err != nil {
+		return fmt.Sprintf("%s|ERR voting view: %v", f[0], err)
+	}
+	vs := vrv.VoteSummary
+	return fmt.Sprintf("%s|%d|%d|%d|%d|%d|%d|%s|%s|%s|%s|%s|%s", f[0], res, vrv.Height, vrv.Round,
+		vs.AvailablePower, vs.TotalPrevotePower, vs.TotalPrecommitPower,
+		fmtMap(vs.PrevoteBlockPower), fmtMap(vs.PrecommitBlockPower),
+		hexOrDash(vs.MostVotedPrevoteHash), hexOrDash(vs.MostVotedPrecommitHash),
+		proofMasks(vrv.PrevoteProofs), proofMasks(vrv.PrecommitProofs))
+}
+
+func mirrorMain() {
+	pool := tmconsensustest.DeterministicValidatorsEd25519(maxKeys)
+	sc := bufio.NewScanner(os.Stdin)
+	sc.Buffer(make([]byte, 1<<20), 1<<24)
+	w := bufio.NewWriter(os.Stdout)
+	defer w.Flush()
+	for sc.Scan() {
+		line := sc.Text()
+		if line == "" {
+			continue
+		}
+		f := strings.Split(line, "|")
+		if len(f) != 5 {
+			fmt.Fprintf(w, "%s|BADLINE\n", f[0])
+			continue
+		}
+		fmt.Fprintln(w, runScenario(pool, f))
+		w.Flush()
+	}
+}
